@@ -339,6 +339,23 @@ func pointerOffsetBuffers() [][]byte {
 	return out
 }
 
+// v6Refused: malformed DHCPv6 messages whose rejection happens deep inside (fresh copies each time): a relay chain
+// whose innermost option overruns, an IA_NA whose address option is cut, an NTP sub-option and a name cut short, a
+// vendor option with half a sub-option — decoded (and refused) between other decodes.
+func v6Refused() [][]byte {
+	inner := append([]byte{1, 9, 9, 9}, v6opt(3, append(make([]byte, 12), 0, 5, 0, 24, 1, 2, 3))...)
+	relay := append(append(append([]byte{12, 0}, make([]byte, 32)...), v6opt(18, []byte("iface"))...), v6opt(9, inner)...)
+	relay2 := append(append([]byte{12, 1}, make([]byte, 32)...), v6opt(9, relay)...)
+	return [][]byte{
+		inner, relay, relay2,
+		append([]byte{7, 1, 2, 3}, v6opt(56, append(v6opt(1, make([]byte, 16)), 0, 3, 0, 9, 3, 'a', 'b'))...),
+		append([]byte{7, 1, 2, 3}, v6opt(24, []byte{3, 'a', 'b', 'c', 0, 5, 'x'})...),
+		append([]byte{7, 1, 2, 3}, v6opt(17, []byte{0, 0, 0, 9, 0, 1, 0})...),
+		append(append([]byte{7, 1, 2, 3}, v6opt(1, []byte{0, 3, 0, 1, 1, 2, 3, 4, 5, 6})...), 0, 2, 0, 9, 0),
+		{12, 0, 1, 2, 3},
+	}
+}
+
 // labelEdgeBuffers: pointers whose target sits at the very end of the buffer — the last octet, the first octet past
 // the end (offset == length), one further — and at the pointer itself and its neighbours, after 0..3 complete names
 // and followed or not by another name; and names in presentation format (dotted ASCII text) where wire format belongs.
